@@ -14,6 +14,7 @@ type Record struct {
 	Untracked   []bool  `json:"untracked"`
 	InvalidSelf []bool  `json:"invalid_self"`
 	SelfSkip    []bool  `json:"self_skip,omitempty"` // own fingerprint is "" (HashSkip): own changes are not tracked, dependencies are
+	Real        bool    `json:"real_export,omitempty"` // export files are real gc export data; lookups may go through packages.Importer
 	Strict      bool    `json:"strict"`              // conc: no world change between a listing and the end of its operation
 	HashYield   bool    `json:"hash_yield"`          // conc: the fingerprint function is a scheduling point
 	Tasks       [][]Op  `json:"tasks"`               // caller tasks
@@ -79,6 +80,7 @@ func genFault(rt *rapid.T, enabled bool) string {
 func GenSeq(rt *rapid.T) *Record {
 	r := &Record{Mode: "seq"}
 	genWorld(rt, r)
+	r.Real = rapid.IntRange(0, 3).Draw(rt, "real_export") == 0
 	faults := rapid.IntRange(0, 3).Draw(rt, "faulty_run") != 0 // 25% fault-free
 	n := rapid.IntRange(1, 40).Draw(rt, "nops")
 	var ops []Op
@@ -86,7 +88,16 @@ func GenSeq(rt *rapid.T) *Record {
 		k := rapid.IntRange(0, 19).Draw(rt, "opkind")
 		switch {
 		case k < 7:
-			ops = append(ops, Op{Kind: "find", Pkgs: []int{genPkg(rt, r)}, Fault: genFault(rt, faults)})
+			op := Op{Kind: "find", Pkgs: []int{genPkg(rt, r)}, Fault: genFault(rt, faults)}
+			if r.Real {
+				switch v := rapid.IntRange(0, 9).Draw(rt, "via"); {
+				case v < 5:
+					op.Kind, op.A = "import", v
+				case v < 6:
+					op.Kind, op.A = "import_nocache", v
+				}
+			}
+			ops = append(ops, op)
 		case k < 9:
 			m := rapid.IntRange(1, 3).Draw(rt, "npre")
 			var ps []int
@@ -150,6 +161,7 @@ func GenConc(rt *rapid.T) *Record {
 	genWorld(rt, r)
 	r.Strict = rapid.IntRange(0, 3).Draw(rt, "strict") != 0
 	r.HashYield = rapid.Bool().Draw(rt, "hash_yield")
+	r.Real = rapid.IntRange(0, 3).Draw(rt, "real_export") == 0
 	faults := rapid.IntRange(0, 3).Draw(rt, "faulty_run") != 0
 	nt := rapid.IntRange(1, 3).Draw(rt, "ntasks")
 	for t := 0; t < nt; t++ {
@@ -159,7 +171,11 @@ func GenConc(rt *rapid.T) *Record {
 			k := rapid.IntRange(0, 9).Draw(rt, "opkind")
 			switch {
 			case k < 7:
-				ops = append(ops, Op{Kind: "find", Pkgs: []int{genPkg(rt, r)}})
+				op := Op{Kind: "find", Pkgs: []int{genPkg(rt, r)}}
+				if r.Real && rapid.Bool().Draw(rt, "via_importer") {
+					op.Kind = "import"
+				}
+				ops = append(ops, op)
 			case k < 8:
 				ops = append(ops, Op{Kind: "save", Slot: rapid.IntRange(0, 1).Draw(rt, "slot")})
 			case k < 9:
@@ -339,6 +355,15 @@ func Simplify(rec any) []any {
 	}
 	if r.HashYield {
 		add(func(c *Record) { c.HashYield = false })
+	}
+	// a lookup through the importer -> a plain Find
+	for t := range r.Tasks {
+		for i, o := range r.Tasks[t] {
+			t, i := t, i
+			if o.Kind == "import" {
+				add(func(c *Record) { c.Tasks[t][i].Kind = "find" })
+			}
+		}
 	}
 	return out
 }
